@@ -117,8 +117,8 @@ impl<const N: u32> PxE1<{ N }> {
             let mut shift_right = (k_a as i16) - (k_b as i16);
             let mut frac64_b = (frac_b as u64) << 32;
 
-            //This is 4kZ + expZ; (where kZ=k_a-kB and expZ=exp-expB)
-            shift_right = (shift_right << 2) + (exp as i16) - (exp_b as i16);
+            //This is 2kZ + expZ; (where kZ=k_a-kB and expZ=exp-expB)
+            shift_right = (shift_right << 1) + (exp as i16) - (exp_b as i16);
 
             if shift_right == 0 {
                 frac64 += frac64_b;
@@ -245,8 +245,8 @@ impl<const N: u32> PxE1<{ N }> {
             let mut shift_right = (k_a as i16) - (k_b as i16);
             let mut frac64_b = (frac_b as u64) << 32;
 
-            //This is 4kZ + expZ; (where kZ=kA-kB and expZ=exp-expB)
-            shift_right = (shift_right << 2) + (exp as i16) - (exp_b as i16);
+            //This is 2kZ + expZ; (where kZ=kA-kB and expZ=exp-expB)
+            shift_right = (shift_right << 1) + (exp as i16) - (exp_b as i16);
 
             if shift_right > 60 {
                 return Self::from_bits(if sign { ui_a.wrapping_neg() } else { ui_a });
